@@ -328,18 +328,19 @@ func genStackTyped(g *tr.G, emit func(kind string, ops []string, tags ...string)
 			sizes = append(sizes, 15, 16, 17, 63, 64, 127, 128, 255, 256, 511, 512, 513)
 		}
 		for i, n := range sizes {
+			if n > 500 && (ti+i)%3 != 0 { // 511, 512, 513: each for three of the nine types
+				continue
+			}
 			g1, g2 := "pushn", "addn"
 			if i%2 == 1 {
 				g1, g2 = g2, g1
 			}
 			emit("S"+string(t)+string("zn"[i%2]), lifoFifoScale(n, true, i%3-1, g1, g2, kn, true), "typed-scale-deep")
 		}
-		// (the model replays a stack op in time linear in the size: the quiet histories of 1025
-		// elements go to three of the nine types per seed in the quick tier)
-		for i, n := range []int{1025, 2049} {
-			if g.Thorough() && (i == 0 || (ti+int(g.Seed))%3 == 0) || i == 0 && (ti+int(g.Seed))%3 == 0 {
-				emit("S"+string(t)+string("nz"[i%2]), lifoFifoScale(n, false, -1, "pushn", "addn", kn, true), "typed-scale-light")
-			}
+		// (the model replays a stack op in time linear in the size: the quiet history of 1025
+		// elements goes to three of the nine types per seed in the quick tier, to all in the thorough tier)
+		if g.Thorough() || (ti+int(g.Seed))%3 == 0 {
+			emit("S"+string(t)+string("nz"[ti%2]), lifoFifoScale(1025, false, -1, "pushn", "addn", kn, true), "typed-scale-light")
 		}
 	}
 	// exactly 2^15-1 … 2^16+1 elements (spec-only lines, uppercase type letter): quiet histories with
